@@ -157,3 +157,65 @@ func (lt *LT) FormatV(seg func(string) string, vData, vSkip []int) string {
 	}
 	return sb.String()
 }
+
+// ShapeErrors checks, on a link tree in pre-order (absolute paths + depths), the facts the Lean
+// completeness theorems assume of link trees (GS.Loader.WF, PathsDFS, root path empty, other paths
+// non-empty): the descendants of a node (following nodes of greater depth) are exactly the following
+// nodes whose path properly extends the node's path; paths are distinct and a link comes before the
+// links below it; everything under a path prefix is visited contiguously.  Returns the violations
+// (none expected for anything go-ipld-prime's traversal produces).
+func ShapeErrors(paths [][]string, depth []int) []string {
+	var errs []string
+	n := len(paths)
+	isPre := func(a, b []string) bool { return isPrefix(a, b) }
+	for i := 0; i < n; i++ {
+		if i == 0 && (len(paths[0]) != 0 || depth[0] != 0) {
+			errs = append(errs, "root path/depth not empty/0")
+		}
+		if i > 0 && (len(paths[i]) == 0 || depth[i] <= 0) {
+			errs = append(errs, fmt.Sprintf("node %d: empty path or depth 0", i))
+		}
+		// WF: subtree by depth == proper path extensions
+		j := i + 1
+		for ; j < n && depth[j] > depth[i]; j++ {
+			if !isProperPrefix(paths[i], paths[j]) {
+				errs = append(errs, fmt.Sprintf("WF: node %d is in the subtree of %d but its path does not extend it", j, i))
+			}
+		}
+		for ; j < n; j++ {
+			if isProperPrefix(paths[i], paths[j]) {
+				errs = append(errs, fmt.Sprintf("WF: node %d follows the subtree of %d but its path extends it", j, i))
+			}
+		}
+		// PathsDFS (a): no later path is a prefix of (or equal to) this one
+		for j := i + 1; j < n; j++ {
+			if isPre(paths[j], paths[i]) {
+				errs = append(errs, fmt.Sprintf("PathsDFS: path of later node %d is a prefix of the path of %d", j, i))
+			}
+		}
+		// PathsDFS (b): for every prefix x of the path, the following extensions of x are contiguous
+		for l := 0; l <= len(paths[i]); l++ {
+			x := paths[i][:l]
+			k := i + 1
+			for ; k < n && isPre(x, paths[k]); k++ {
+			}
+			for ; k < n; k++ {
+				if isPre(x, paths[k]) {
+					errs = append(errs, fmt.Sprintf("PathsDFS: node %d returns below prefix %v of node %d after leaving it", k, x, i))
+				}
+			}
+		}
+	}
+	return errs
+}
+
+// Shape runs ShapeErrors on a link tree produced by the reference traversal.
+func (lt *LT) Shape() []string {
+	paths := make([][]string, len(lt.Loads))
+	depth := make([]int, len(lt.Loads))
+	for i, l := range lt.Loads {
+		paths[i] = l.Path
+		depth[i] = l.Depth
+	}
+	return ShapeErrors(paths, depth)
+}
